@@ -362,6 +362,22 @@ def _classify(j):
     return {"binary": _has_binary(j), "deep": _depth(j) >= 2, "marker-value": val, "marker-key": key}
 
 
+def _marker_key_harmful(x, registered) -> bool:
+    """Is there a plain dict whose marker key can be misread: '_bytes' / '_bytesio', or '_type' naming a registered class?  ('_type': 'invoice' is ordinary content
+    and must survive: the listed finding is about keys the decoder has a reading for.)"""
+    if dataclasses.is_dataclass(x) and not isinstance(x, type):
+        if isinstance(x, dict) and _marker_key_harmful(dict(dict.items(x)), registered):
+            return True
+        return any(_marker_key_harmful(getattr(x, f.name), registered) for f in dataclasses.fields(x))
+    if isinstance(x, dict):
+        if "_bytes" in x or "_bytesio" in x or (isinstance(x.get("_type"), str) and x.get("_type") in registered):
+            return True
+        return any(_marker_key_harmful(v, registered) for v in x.values())
+    if isinstance(x, (list, tuple, set)):
+        return any(_marker_key_harmful(v, registered) for v in x)
+    return False
+
+
 def _obj_marker_key(x) -> bool:
     """does the object graph hold a plain dict with a key from the marker vocabulary?"""
     if dataclasses.is_dataclass(x) and not isinstance(x, type):
@@ -380,6 +396,8 @@ def evaluate_instance(ctx, x, part, label):
     cls = _classify(j) if j is not None else {}
     cls["marker-key"] = _obj_marker_key(x)
     feats = {k for k, v in cls.items() if v}
+    if cls["marker-key"] and not _marker_key_harmful(x, set(_registry())):
+        feats = (feats - {"marker-key"}) | {"marker-key-unreadable"}        # not covered by the listed finding
     if part is not None:
         part.case(digest([label, j]) if j is not None else None, bool(feats), sample={"class": type(x).__name__, "classes": sorted(feats)} if part.evaluations % 301 == 0 else None,
                   **{k: v for k, v in cls.items()})
@@ -463,7 +481,9 @@ def results_shard(ctx: Ctx):
         def marker_grid(t, fmt=fmt):
             hdr, vals = t
             rows = [[{"t": "s", "v": h} for h in hdr], [{"t": "s", "v": v} for v in vals]]
-            return {"kind": "grid", "format": fmt, "grid": {"props": {}, "sheets": [{"name": "Sheet1", "origin": [0, 0], "rows": rows, "hdr_rows": 0}]}, "features": ["marker-cells"]}
+            # the listed finding covers header cells the decoder has a reading for: _bytes, _bytesio, or _type over a cell that names a registered class
+            harmful = any(h in ("_bytes", "_bytesio") or (h == "_type" and v in _registry()) for h, v in zip(hdr, vals))
+            return {"kind": "grid", "format": fmt, "grid": {"props": {}, "sheets": [{"name": "Sheet1", "origin": [0, 0], "rows": rows, "hdr_rows": 0}]}, "features": ["marker-cells" if harmful else "marker-cells-unreadable"]}
         mk_cells = st.lists(st.sampled_from(MARKERS), min_size=2, max_size=2, unique=True)
         hyp_search(ctx, f"res-mk-{fmt}", st.tuples(mk_cells, mk_cells).map(marker_grid), ev, 30, part, model_shrink=False)
     img_fmts = sorted(c14.FORMATS_IMG)
